@@ -69,7 +69,7 @@ Values == { <<Txt(t)>> : t \in Texts }
                  <<Par(<<"1">>)>>, <<ParD(<<"z">>, <<Txt(<<"dz">>)>>)>>,
                  <<ParD(<<"z">>, <<Call("T1", <<Pos(<<Txt(<<"q">>)>>)>>)>>)>> }
 ArgKinds == { Pos(v) : v \in Values }
-            \cup { Named(key, v) : key \in { <<"x">>, <<"SP", "x", "NL">>, <<"1">>, <<"2">>, <<"y">> }, v \in Values }
+            \cup { Named(key, v) : key \in { <<"x">>, <<"SP", "x", "NL">>, <<"1">>, <<"2">>, <<"y">>, <<"1", "SP">>, <<"NL", "2", "SP">> }, v \in Values }
 ArgSeqs == { <<>> } \cup { <<a>> : a \in ArgKinds } \cup { <<a, b>> : a \in ArgKinds, b \in ArgKinds }
 ArgSeqsQ == { <<>> } \cup { <<a>> : a \in ArgKinds }
             \cup { <<a, b>> : a \in { Pos(v) : v \in Values }, b \in ArgKinds }
